@@ -442,39 +442,46 @@ func checkDecodeConstructors(p *Program, r *Report, rule string) {
 			r.SawFn(shortFn(fn))
 			e := NewEngine(p)
 			outs, err := extract(p, e, fn, nil)
-			if err != nil || len(outs) != 2 {
-				r.Violate(rule, sp+".ColorFromRGBA", p.FnPos(fn), fmt.Sprintf("expected two paths (A == 0 → zero colour; otherwise un-premultiply), got %d %v", len(outs), err))
-			} else {
-				for _, o := range outs {
-					c := o.St.conds[0]
-					isZeroGuard := valKey(c.A) == "1*c.A" && valKey(c.B) == "0"
-					tp, _ := o.Ret.(Tuple)
-					if len(tp) != 2 || !isZeroGuard {
-						r.Violate(rule, sp+".ColorFromRGBA guard", p.Pos(o.Pos), "unexpected guard "+trunc(c.Key(), 100))
-						continue
-					}
-					if c.Op == "==" {
-						zero := true
-						for i := range chanNames {
-							f, ok := formAt(tp[0], 0, i)
-							if !ok || !f.Equal(formInt(0)) {
-								zero = false
-							}
-						}
-						a, _ := tp[1].(*Form)
-						r.Check(zero && a != nil && a.Equal(formInt(0)), rule, sp+".ColorFromRGBA transparent", p.Pos(o.Pos), "A == 0 ↦ zero colour, alpha 0", "transparent pixel decodes to "+trunc(valKey(o.Ret), 120))
-					} else {
-						alpha := formAtom("c.A").Div(formInt(255))
-						for i, ch := range chanNames {
-							f, ok := formAt(tp[0], 0, i)
-							want := e.A.App("index", nil, &Opaque{Key: lut8}, formAtom("c."+ch)).Div(alpha)
-							r.Check(ok && f.Equal(want), rule, fmt.Sprintf("%s.ColorFromRGBA %s", sp, ch), p.Pos(o.Pos), "= "+lut8+"[c."+ch+"] / alpha", "channel "+ch+" is "+trunc(valKey(f), 160))
-						}
-						a, _ := tp[1].(*Form)
-						r.Check(a != nil && a.Equal(alpha), rule, sp+".ColorFromRGBA alpha", p.Pos(o.Pos), "alpha = float32(c.A)/255", "alpha is "+trunc(valKey(tp[1]), 120))
-					}
-				}
+			if err != nil {
+				r.Violate(rule, sp+".ColorFromRGBA", p.FnPos(fn), err.Error())
 			}
+			sawZero, sawGeneral := false, false
+			for _, o := range outs {
+				ac, ok := alphaCaseOf(o, "c.A")
+				tp, _ := o.Ret.(Tuple)
+				if len(tp) != 2 || !ok {
+					r.Violate(rule, sp+".ColorFromRGBA guard", p.Pos(o.Pos), "unexpected guard ["+trunc(condKeys(o), 160)+"]: the only case split of the decoder is on the value of A (A == 0 ↦ zero colour)")
+					continue
+				}
+				a, _ := tp[1].(*Form)
+				if ac.zero {
+					sawZero = true
+					zero := true
+					for i := range chanNames {
+						f, ok := formAt(tp[0], 0, i)
+						if !ok || !f.Equal(formInt(0)) {
+							zero = false
+						}
+					}
+					r.Check(zero && a != nil && a.Equal(formInt(0)), rule, sp+".ColorFromRGBA transparent", p.Pos(o.Pos), "A == 0 ↦ zero colour, alpha 0", "transparent pixel decodes to "+trunc(valKey(o.Ret), 120))
+					continue
+				}
+				if !ac.nonZero {
+					r.Violate(rule, sp+".ColorFromRGBA guard", p.Pos(o.Pos), "a path un-premultiplies without having excluded A == 0 (division by zero alpha)")
+					continue
+				}
+				if len(ac.sub) == 0 {
+					sawGeneral = true
+				}
+				alpha := formAtom("c.A").Div(formInt(255)).Subst(ac.sub)
+				for i, ch := range chanNames {
+					f, ok := formAt(tp[0], 0, i)
+					want := e.A.App("index", nil, &Opaque{Key: lut8}, formAtom("c."+ch)).Div(alpha)
+					r.Check(ok && f.Subst(ac.sub).Equal(want), rule, fmt.Sprintf("%s.ColorFromRGBA %s%s", sp, ch, ac.tag), p.Pos(o.Pos), "= "+lut8+"[c."+ch+"] / alpha", "channel "+ch+" is "+trunc(valKey(f), 160))
+				}
+				r.Check(a != nil && a.Subst(ac.sub).Equal(alpha), rule, sp+".ColorFromRGBA alpha"+ac.tag, p.Pos(o.Pos), "alpha = float32(c.A)/255", "alpha is "+trunc(valKey(tp[1]), 120))
+			}
+			r.Check(sawZero && sawGeneral, rule, sp+".ColorFromRGBA cases", p.FnPos(fn), "the A == 0 case and the general case both exist", fmt.Sprintf("zero case found: %v, general case found: %v", sawZero, sawGeneral))
 		}
 
 		// ColorFromEncodedColor = RGBFromEncoded(c, From16Bit of the table source)
@@ -486,65 +493,125 @@ func checkDecodeConstructors(p *Program, r *Report, rule string) {
 			r.SawFn(shortFn(fn))
 			e := NewEngine(p)
 			outs, err := extract(p, e, fn, nil)
-			if err != nil || len(outs) != 2 {
-				r.Violate(rule, sp+".ColorFromEncodedColor", p.FnPos(fn), fmt.Sprintf("expected two paths (a == 0 / a != 0), got %d %v", len(outs), err))
-			} else {
-				for _, o := range outs {
-					tp, _ := o.Ret.(Tuple)
-					if len(tp) != 2 || len(o.St.conds) != 1 {
-						r.Violate(rule, sp+".ColorFromEncodedColor shape", p.Pos(o.Pos), "unexpected shape")
-						continue
-					}
-					c := o.St.conds[0]
-					aAtom := "invoke:RGBA#3(c)"
-					if valKey(c.A) != "1*"+aAtom || valKey(c.B) != "0" {
-						r.Violate(rule, sp+".ColorFromEncodedColor guard", p.Pos(o.Pos), "guard is "+trunc(c.Key(), 120)+"; required a == 0 on the colour's own alpha")
-						continue
-					}
-					if c.Op == "==" {
-						a, _ := tp[1].(*Form)
-						zero := a != nil && a.Equal(formInt(0))
-						for i := range chanNames {
-							f, ok := formAt(tp[0], 0, i)
-							if !ok || !f.Equal(formInt(0)) {
-								zero = false
-							}
-						}
-						r.Check(zero, rule, sp+".ColorFromEncodedColor transparent", p.Pos(o.Pos), "a == 0 ↦ zero colour, alpha 0", "transparent colour decodes to "+trunc(valKey(o.Ret), 120))
-						continue
-					}
-					alpha := formAtom(aAtom).Div(formInt(65535))
-					for i, ch := range chanNames {
+			if err != nil {
+				r.Violate(rule, sp+".ColorFromEncodedColor", p.FnPos(fn), err.Error())
+			}
+			aAtom := "invoke:RGBA#3(c)"
+			sawZero, sawGeneral := false, false
+			for _, o := range outs {
+				tp, _ := o.Ret.(Tuple)
+				ac, ok := alphaCaseOf(o, aAtom)
+				if len(tp) != 2 || !ok {
+					r.Violate(rule, sp+".ColorFromEncodedColor guard", p.Pos(o.Pos), "guard is ["+trunc(condKeys(o), 160)+"]; the only case split of the decoder is on the value of the colour's own alpha (a == 0 ↦ zero colour)")
+					continue
+				}
+				a, _ := tp[1].(*Form)
+				if ac.zero {
+					sawZero = true
+					zero := a != nil && a.Equal(formInt(0))
+					for i := range chanNames {
 						f, ok := formAt(tp[0], 0, i)
-						// index(lut16, low 16 bits of channel i) / alpha
-						good := false
-						got := valKey(f)
-						if ok {
-							q := f.Mul(alpha)
-							if an, isA := q.SingleAtom(); isA {
-								at := e.A.get(an)
-								if at != nil && at.Fn == "index" && valKey(at.Args[0]) == lut16 {
-									if idx, isF := at.Args[1].(*Form); isF {
-										bv := e.BVOf(idx, types.Typ[types.Uint16])
-										src16 := fmt.Sprintf("invoke:RGBA#%d(c)", i)
-										good = true
-										for j, b := range bv.Bits {
-											if b != (Bit{Kind: 'a', A: src16, Idx: j}) {
-												good = false
-											}
+						if !ok || !f.Equal(formInt(0)) {
+							zero = false
+						}
+					}
+					r.Check(zero, rule, sp+".ColorFromEncodedColor transparent", p.Pos(o.Pos), "a == 0 ↦ zero colour, alpha 0", "transparent colour decodes to "+trunc(valKey(o.Ret), 120))
+					continue
+				}
+				if !ac.nonZero {
+					r.Violate(rule, sp+".ColorFromEncodedColor guard", p.Pos(o.Pos), "a path un-premultiplies without having excluded a == 0")
+					continue
+				}
+				if len(ac.sub) == 0 {
+					sawGeneral = true
+				}
+				alpha := formAtom(aAtom).Div(formInt(65535)).Subst(ac.sub)
+				for i, ch := range chanNames {
+					f, ok := formAt(tp[0], 0, i)
+					// index(lut16, low 16 bits of channel i) / alpha
+					good := false
+					got := valKey(f)
+					if ok {
+						q := f.Subst(ac.sub).Mul(alpha)
+						if an, isA := q.SingleAtom(); isA {
+							at := e.A.get(an)
+							if at != nil && at.Fn == "index" && valKey(at.Args[0]) == lut16 {
+								if idx, isF := at.Args[1].(*Form); isF {
+									bv := e.BVOf(idx, types.Typ[types.Uint16])
+									src16 := fmt.Sprintf("invoke:RGBA#%d(c)", i)
+									good = true
+									for j, b := range bv.Bits {
+										if b != (Bit{Kind: 'a', A: src16, Idx: j}) {
+											good = false
 										}
 									}
 								}
 							}
 						}
-						r.Check(good, rule, fmt.Sprintf("%s.ColorFromEncodedColor %s", sp, ch), p.Pos(o.Pos), fmt.Sprintf("= %s[uint16(%s)] / alpha", lut16, strings.ToLower(ch)), "channel "+ch+" is "+trunc(got, 200)+fmt.Sprintf("; required %s indexed by the colour's own %s component, divided by alpha", lut16, ch))
 					}
-					a, _ := tp[1].(*Form)
-					r.Check(a != nil && a.Equal(alpha), rule, sp+".ColorFromEncodedColor alpha", p.Pos(o.Pos), "alpha = float32(a)/65535", "alpha is "+trunc(valKey(tp[1]), 120))
+					r.Check(good, rule, fmt.Sprintf("%s.ColorFromEncodedColor %s%s", sp, ch, ac.tag), p.Pos(o.Pos), fmt.Sprintf("= %s[uint16(%s)] / alpha", lut16, strings.ToLower(ch)), "channel "+ch+" is "+trunc(got, 200)+fmt.Sprintf("; required %s indexed by the colour's own %s component, divided by alpha", lut16, ch))
 				}
+				r.Check(a != nil && a.Subst(ac.sub).Equal(alpha), rule, sp+".ColorFromEncodedColor alpha"+ac.tag, p.Pos(o.Pos), "alpha = float32(a)/65535", "alpha is "+trunc(valKey(tp[1]), 120))
 			}
+			r.Check(sawZero && sawGeneral, rule, sp+".ColorFromEncodedColor cases", p.FnPos(fn), "the a == 0 case and the general case both exist", fmt.Sprintf("zero case found: %v, general case found: %v", sawZero, sawGeneral))
 		}
 	}
 }
 
 var _ = big.NewRat
+
+// alphaCase describes the case of the alpha value a path has selected: every
+// path condition must be an (in)equality of the alpha atom with a constant.
+type alphaCase struct {
+	sub     map[string]*Form // alpha == K on this path
+	zero    bool             // alpha == 0
+	nonZero bool             // alpha != 0 established (a != 0, or a == K with K != 0)
+	tag     string
+}
+
+func alphaCaseOf(o Outcome, atom string) (alphaCase, bool) {
+	ac := alphaCase{sub: map[string]*Form{}}
+	if o.Kind != "return" {
+		return ac, false
+	}
+	want := formAtom(atom)
+	for _, c := range o.St.conds {
+		a, _ := c.A.(*Form)
+		b, _ := c.B.(*Form)
+		if a == nil || b == nil {
+			return ac, false
+		}
+		if _, isC := a.Const(); isC {
+			a, b = b, a
+		}
+		k, isC := b.Const()
+		if !isC || !a.Equal(want) {
+			return ac, false
+		}
+		switch c.Op {
+		case "==":
+			ac.sub[atom] = formRat(k)
+			if k.Sign() == 0 {
+				ac.zero = true
+			} else {
+				ac.nonZero = true
+				ac.tag = " (a == " + k.RatString() + ")"
+			}
+		case "!=":
+			if k.Sign() == 0 {
+				ac.nonZero = true
+			}
+		default:
+			return ac, false
+		}
+	}
+	return ac, true
+}
+
+func condKeys(o Outcome) string {
+	var cs []string
+	for _, c := range o.St.conds {
+		cs = append(cs, c.Key())
+	}
+	return strings.Join(cs, " && ")
+}
